@@ -166,7 +166,7 @@ def r4(ctx):
     f, loop = _count_loop(ctx)
     calls = [c for c in walk_no_nested(loop) if isinstance(c, ast.Call) and dotted(c.func) == 'read_counts']
     kw = {k.arg: src(k.value) for k in calls[0].keywords} if calls else {}
-    ok = len(calls) == 1 and kw.get('read1_only') == 'True' and kw.get('min_mq') == 'min_mq' and kw.get('dedup') == 'dedup' and src(calls[0].args[0]) == loop.target.elts[1].id
+    ok = len(calls) == 1 and kw.get('read1_only') == 'True' and kw.get('min_mq') == 'min_mq' and kw.get('dedup') == 'dedup' and src(calls[0].args[0]) == (loop.target.elts[1].id if isinstance(loop.target, ast.Tuple) else loop.target.id)
     ctx.emit('C12-R4', ok, BINCOUNTS, calls[0] if calls else loop, f'counter filters with read_counts({", ".join(f"{k}={v}" for k, v in kw.items())})', key='filter-call')
     mod = ctx.ix.module(BINCOUNTS)
     p = mod.parent[calls[0]] if calls else None
